@@ -10,6 +10,8 @@ recorded known finding of this property.
 The conversion of the other constructs is decided by the execution oracle of the check.
 -/
 import MambaVerif.Model.Range
+import MambaVerif.Lemmas.Tail
+import MambaVerif.Generated.TailTables
 
 namespace MV.C01
 
@@ -52,5 +54,84 @@ theorem range_negative_step_witness :
 
 /-! Non-vacuity: `1 ..= 7 .. 3` enumerates 1, 4, 7. -/
 example : pyRange 10 1 (rangeEnd 7 true) 3 = [1, 4, 7] ∧ srcRange 10 1 7 true 3 = [1, 4, 7] := by decide
+
+/-! ### where a definition and the implicit return land: every path
+
+`def x := if … / match … / … handle …` and the implicit return of a function body are desugared by
+`append_assign` / `append_ret` (generate/convert/mod.rs), modelled in `Model/Tail.lean`.  The list of
+`Core` variants the Rust functions descend into and the variants they leave alone are REGENERATED from
+the source on every run (`Generated/TailTables.lean`) and must coincide with what the model does. -/
+
+/-- the model descends into, and skips, exactly the variants the Rust functions do (regenerated) -/
+theorem tail_tables_match :
+    assignDescends = modelDescends ∧ retDescends = modelDescends ∧
+      assignSkips = modelAssignSkips ∧ retSkips = modelRetSkips := by decide
+
+/-- **definition_binds_on_every_path**: after `append_assign`, no path through the statement tree —
+    whatever the nesting of blocks, conditionals, match arms, try/except handlers — ends in a bare
+    expression: every path ends in an assignment (to `x` where an expression stood), a `return`, a
+    `raise`, or an empty block.  Exactly the tail statements change (`leaves_appendAssign`). -/
+theorem definition_binds_on_every_path (x : Nat) (s : TS) :
+    ∀ l ∈ leaves (appendAssign x s), (∃ y e, l = .assign y e) ∨ (∃ e, l = .ret e) ∨ (∃ e, l = .raise e) ∨ l = .block [] := by
+  intro l hl
+  rw [leaves_appendAssign] at hl
+  obtain ⟨l0, h0, rfl⟩ := List.mem_map.mp hl
+  have hleaf := leaves_are_leaves s l0 h0
+  cases l0 with
+  | expr e => exact Or.inl ⟨x, e, rfl⟩
+  | ret e => exact Or.inr (Or.inl ⟨e, rfl⟩)
+  | raise e => exact Or.inr (Or.inr (Or.inl ⟨e, rfl⟩))
+  | assign y e => exact Or.inl ⟨y, e, rfl⟩
+  | retAssign y e => exact Or.inl ⟨x, y + e, rfl⟩
+  | block ss =>
+    cases ss with
+    | nil => exact Or.inr (Or.inr (Or.inr rfl))
+    | cons a as => simp [TS.isLeaf] at hleaf
+  | ifElse _ _ _ => simp [TS.isLeaf] at hleaf
+  | matchS _ _ => simp [TS.isLeaf] at hleaf
+  | case _ _ => simp [TS.isLeaf] at hleaf
+  | tryExcept _ _ _ => simp [TS.isLeaf] at hleaf
+  | except _ _ => simp [TS.isLeaf] at hleaf
+
+/-- where an expression stood in tail position, it is `x` that is assigned, with that expression -/
+theorem definition_assigns_the_tail_expression (x : Nat) (s : TS) :
+    leaves (appendAssign x s) = (leaves s).map (wrapA x) := leaves_appendAssign x s
+
+/-- **implicit_return_on_every_path**: after `append_ret` every path ends in a `return` or a `raise` —
+    or in the `return <assignment>` that `append_ret` makes of an assignment in tail position, which is
+    not Python (see the witness below). -/
+theorem implicit_return_on_every_path (s : TS) :
+    ∀ l ∈ leaves (appendRet s), (∃ e, l = .ret e) ∨ (∃ e, l = .raise e) ∨ (∃ y e, l = .retAssign y e) := by
+  intro l hl
+  rw [leaves_appendRet] at hl
+  obtain ⟨l0, h0, rfl⟩ := List.mem_map.mp hl
+  have hleaf := leaves_are_leaves s l0 h0
+  cases l0 with
+  | expr e => exact Or.inl ⟨e, rfl⟩
+  | ret e => exact Or.inl ⟨e, rfl⟩
+  | raise e => exact Or.inr (Or.inl ⟨e, rfl⟩)
+  | assign y e => exact Or.inr (Or.inr ⟨y, e, rfl⟩)
+  | retAssign y e => exact Or.inr (Or.inr ⟨y, e, rfl⟩)
+  | block ss =>
+    cases ss with
+    | nil => exact Or.inl ⟨0, rfl⟩
+    | cons a as => simp [TS.isLeaf] at hleaf
+  | ifElse _ _ _ => simp [TS.isLeaf] at hleaf
+  | matchS _ _ => simp [TS.isLeaf] at hleaf
+  | case _ _ => simp [TS.isLeaf] at hleaf
+  | tryExcept _ _ _ => simp [TS.isLeaf] at hleaf
+  | except _ _ => simp [TS.isLeaf] at hleaf
+
+/-- WITNESS (known finding C02 `function-ends-with-match-definition`): a body that ends in a
+    definition fed by a match gets `return <assignment>` in every arm -/
+theorem return_of_definition_witness :
+    leaves (appendRet (.block [.matchS 1 [.case 1 (.assign 7 2), .case 0 (.assign 7 3)]])) =
+      [.retAssign 7 2, .retAssign 7 3] := by
+  simp [appendRet, appendRetLast, appendRetAll, leaves, leavesLast, leavesAll]
+
+/-- non-vacuity: a conditional whose first branch ends in a nested match with a block arm -/
+example : leaves (appendAssign 9 (.ifElse 1 (.block [.expr 5, .matchS 2 [.case 1 (.block [.expr 6, .expr 7]), .case 0 (.expr 8)]]) (.expr 3))) =
+    [.assign 9 7, .assign 9 8, .assign 9 3] := by
+  simp [appendAssign, appendAssignLast, appendAssignAll, leaves, leavesLast, leavesAll]
 
 end MV.C01
